@@ -277,6 +277,13 @@ def respInScope (c : Case) : Bool :=
   (match c.fin with | some s => stInScope s | none => true) &&
   (c.srvRespStream || (c.body.msgs.length == 1 && c.fin.isNone))
 
+/-- a single-response client (unary, client-streaming) facing a handler with a response stream: inside the
+contract when the script is what a server may legally answer such a call with - one message and OK, or any
+number of messages and then an error status in the trailers (seed C02f) -/
+def mixedInScope (c : Case) : Bool :=
+  c.srvRespStream && !c.cliRespStream && c.early.isNone && c.body.msgs.all decodable &&
+  (match c.fin with | some s => stInScope s | none => c.body.msgs.length == 1)
+
 def didOf (c : Case) : Spec.Call.Did Bytes :=
   match c.early with
   | some s => .failed (specSt s)
@@ -294,7 +301,10 @@ def verdictOf (c : Case) (obs : List String) : String :=
           ("handler-sees-the-request",
             !reqInScope c || Spec.Call.handlerOk c.srvReqStream c.reads ⟨c.rqMd, c.rq.msgs⟩ got),
           ("client-sees-the-script",
-            !(reqInScope c && respInScope c) || Spec.Call.clientOk c.cliRespStream (didOf c) saw)]
+            !(reqInScope c && respInScope c) || Spec.Call.clientOk c.cliRespStream (didOf c) saw),
+          ("single-response-client-sees-the-streamed-script",
+            !(reqInScope c && mixedInScope c) ||
+              (if c.fin.isSome then Spec.Call.clientOkMixed (didOf c) saw else Spec.Call.clientOk false (didOf c) saw))]
       | _ => "fail:observed-parses"
     | _ => "fail:observed-parses"
   | _ => if obs = ["bad-case"] then "ok" else "fail:never-panics"
